@@ -269,7 +269,8 @@ def _parse_cfg(cfg_buffer: typ.IO[str]) -> RawConfig:
         val: OptionVal = raw_cfg.get(option, default_val)
         if isinstance(val, (bytes, str)):
             # NOTE: quotes are optional for all values in .cfg files
-            val = val.strip("'\" ").lower() in ("yes", "true", "1", "on")
+            # NOTE: a value on a continuation line starts with a newline
+            val = val.strip().strip("'\" ").lower() in ("yes", "true", "1", "on")
         raw_cfg[option] = val
 
     raw_cfg['file_patterns'] = dict(_parse_cfg_file_patterns(cfg_parser))
